@@ -189,7 +189,9 @@ pub fn gen_c05(out: &mut Out, rng: &mut Rng, thorough: bool) {
         shorts.push(s);
         // invalid protocol id, zero length
         let mut bad = spec::mbap(rng.u16(), rng.u8(), &rng.bytes_in(0, 3));
-        bad[3] = 1 + rng.u8() % 255;
+        let pid = rng.nonzero_be16();
+        bad[2] = pid[0];
+        bad[3] = pid[1];
         shorts.push(bad);
         let mut bad = spec::mbap(rng.u16(), rng.u8(), &[]);
         bad[5] = 0;
@@ -213,8 +215,9 @@ pub fn gen_c05(out: &mut Out, rng: &mut Rng, thorough: bool) {
         match rng.below(12) {
             0 => {
                 // non-zero protocol id in a random frame position: simply corrupt the first one
-                s[2] = rng.u8();
-                s[3] = 1 | rng.u8();
+                let pid = rng.nonzero_be16();
+                s[2] = pid[0];
+                s[3] = pid[1];
             }
             1 => {
                 let mut z = spec::mbap(rng.u16(), rng.u8(), &[]);
